@@ -305,3 +305,72 @@ Proof.
   - apply cyclic_b_iff. vm_compute. reflexivity.
   - intros Hc. apply cyclic_b_iff in Hc. vm_compute in Hc. discriminate.
 Qed.
+
+(* ------------------------------------------------------------------ import lists are lists with repetition:
+   only the SET of targets of each module matters — not multiplicity, not order *)
+
+Definition same_imports (P Q : project) : Prop := forall m d, In d (P m) <-> In d (Q m).
+
+Lemma cyclic_set_eq g h : (forall e, In e g <-> In e h) -> (cyclic g <-> cyclic h).
+Proof. intros H. split; apply cyclic_incl; intros e He; apply H; exact He. Qed.
+
+Lemma cyclic_nodup (g : graph) : cyclic g <-> cyclic (nodup edge_dec g).
+Proof. apply cyclic_set_eq. intros e. symmetry. apply nodup_In. Qed.
+
+Lemma edges_of_In P ms a b : In (a, b) (edges_of P ms) <-> In a ms /\ In b (P a).
+Proof.
+  unfold edges_of. rewrite in_flat_map. split.
+  - intros (m & Hm & Hin). apply in_map_iff in Hin. destruct Hin as (d & Heq & Hd). inversion Heq; subst. split; assumption.
+  - intros [Ha Hb]. exists a. split; [exact Ha|]. apply in_map_iff. exists b. split; [reflexivity | exact Hb].
+Qed.
+
+Lemma edges_of_ext P Q ms ms' :
+  same_imports P Q -> (forall m, In m ms <-> In m ms') ->
+  forall e, In e (edges_of P ms) <-> In e (edges_of Q ms').
+Proof.
+  intros HPQ Hms [a b]. rewrite !edges_of_In. rewrite (HPQ a b), (Hms a). reflexivity.
+Qed.
+
+Lemma reachP_ext P Q e m : same_imports P Q -> reachP P e m -> reachP Q e m.
+Proof.
+  intros H. induction 1 as [|x y z Hxy IH Hz]; [apply reachP_refl|].
+  eapply reachP_step; [exact IH | apply H; exact Hz].
+Qed.
+
+(* the dependency relation of a project equals that of its de-duplicated import lists *)
+Theorem dedup_same_relation P ms :
+  same_imports P (fun m => nodup Nat.eq_dec (P m)) /\
+  (forall e, In e (edges_of P ms) <-> In e (edges_of (fun m => nodup Nat.eq_dec (P m)) ms)) /\
+  (cyclic (edges_of P ms) <-> cyclic (edges_of (fun m => nodup Nat.eq_dec (P m)) ms)).
+Proof.
+  assert (H : same_imports P (fun m => nodup Nat.eq_dec (P m))).
+  { intros m d. symmetry. apply nodup_In. }
+  split; [exact H|]. split.
+  - apply edges_of_ext; [exact H | intros m; reflexivity].
+  - apply cyclic_set_eq. apply edges_of_ext; [exact H | intros m; reflexivity].
+Qed.
+
+(* two projects whose modules import the same SETS (any multiplicity, any order) parse the same modules and get the
+   same verdict, under any two schedules *)
+Theorem verdict_multiplicity_order_independent P Q e s s' :
+  same_imports P Q ->
+  steps P (init P e) s -> terminal s -> steps Q (init Q e) s' -> terminal s' ->
+  (forall m, In m (st_seen s) <-> In m (st_seen s')) /\
+  existsb is_err (st_res s) = existsb is_err (st_res s').
+Proof.
+  intros HPQ Hs Ht Hs' Ht'.
+  destruct (terminal_spec P e s Hs Ht) as (_ & Hseen & _ & _).
+  destruct (terminal_spec Q e s' Hs' Ht') as (_ & Hseen' & _ & _).
+  assert (Hsame : forall m, In m (st_seen s) <-> In m (st_seen s')).
+  { intros m. rewrite Hseen, Hseen'. split; apply reachP_ext; [exact HPQ|]. intros a b. symmetry. apply HPQ. }
+  split; [exact Hsame|].
+  destruct (verdict P e s Hs Ht) as [Vc Va]. destruct (verdict Q e s' Hs' Ht') as [Vc' Va'].
+  assert (Hcy : cyclic (edges_of P (st_seen s)) <-> cyclic (edges_of Q (st_seen s'))).
+  { apply cyclic_set_eq. apply edges_of_ext; assumption. }
+  destruct (cyclic_b (edges_of P (st_seen s))) eqn:Eb.
+  - apply cyclic_b_iff in Eb. rewrite (Vc Eb), (Vc' (proj1 Hcy Eb)). reflexivity.
+  - assert (Hna : acyclic (edges_of P (st_seen s))).
+    { intros Hc. apply cyclic_b_iff in Hc. congruence. }
+    assert (Hna' : acyclic (edges_of Q (st_seen s'))) by (intros Hc; apply Hna; apply Hcy; exact Hc).
+    rewrite (proj1 (Va Hna)), (proj1 (Va' Hna')). reflexivity.
+Qed.
